@@ -8,7 +8,8 @@ committed now report). Seeds whose own property check cannot reach them are list
 (SIBLING below)."""
 import json, os, shutil, subprocess, sys, tempfile
 
-SIBLING = {"C03-r2-seed2": ["C06"], "C03-r3-seed2": ["C20"], "C05-r3-seed1": ["C19"], "C05-r3-seed2": ["C10"]}
+SIBLING = {"C03-r2-seed2": ["C06"], "C03-r3-seed2": ["C20"], "C05-r3-seed1": ["C19"], "C05-r3-seed2": ["C10"],
+           "C16-r4-seed2": ["C08"], "C04-r4-seed2": ["C08"], "C02-r4-seed1": ["C11"], "C07-r4-seed1": ["C10"]}
 ENV = dict(os.environ, GOFLAGS="-mod=mod", GOPROXY="off", GOSUMDB="off", GOTOOLCHAIN="local")
 
 
